@@ -740,6 +740,16 @@ func (cachefile *cacheFile) setData(streamID uint64, streamTime time.Time, conve
 		return fmt.Errorf("failed to flush writer: %w", err)
 	}
 
+	// A record that this one supersedes is free space from now on. The next cleanup has to start
+	// there, otherwise the old record stays in the file and is served again after a restart once
+	// the new record was invalidated and cleaned up.
+	if info, ok := cachefile.streamInfos[streamID]; ok {
+		if cachefile.freeStart > info.offset-streamHeaderSize {
+			cachefile.freeStart = info.offset - streamHeaderSize
+		}
+		cachefile.freeSize += streamHeaderSize + int64(info.size)
+	}
+
 	// Remember where to look for this stream.
 	cachefile.streamInfos[streamID] = streamInfo{
 		offset: cachefile.fileSize + streamHeaderSize,
